@@ -39,6 +39,33 @@ def terminates(stmts):
     return False
 
 
+def _copy_pos(new, old):
+    for n in ast.walk(new):
+        if not hasattr(n, 'lineno'):
+            ast.copy_location(n, old)
+    return new
+
+
+def statement_form(s):
+    """`T = A if c else B` -> if c: T = A / else: T = B;  `return A if c else B` -> if c: return A / else: return B  (recursively for
+    chained conditional expressions), so that a conditional written as an expression and the same conditional written as statements are
+    one form. Evaluation order (test first, then exactly one arm) is the same in both."""
+    if isinstance(s, ast.Return) and isinstance(s.value, ast.IfExp):
+        e = s.value
+        a = statement_form(ast.copy_location(ast.Return(value=e.body), e.body))
+        b = statement_form(ast.copy_location(ast.Return(value=e.orelse), e.orelse))
+        return ast.copy_location(ast.If(test=e.test, body=[a], orelse=[b]), s)
+    if isinstance(s, ast.Assign) and isinstance(s.value, ast.IfExp) and len(s.targets) == 1 and isinstance(s.targets[0], ast.Name):
+        e = s.value
+        t = s.targets[0]
+        if t.id in {n.id for n in ast.walk(e.test) if isinstance(n, ast.Name)} | set() and False:
+            return s
+        a = statement_form(ast.copy_location(ast.Assign(targets=[copy.deepcopy(t)], value=e.body), e.body))
+        b = statement_form(ast.copy_location(ast.Assign(targets=[copy.deepcopy(t)], value=e.orelse), e.orelse))
+        return ast.copy_location(ast.If(test=e.test, body=[a], orelse=[b]), s)
+    return s
+
+
 def flatten_block(stmts):
     out = []
     for s in stmts:
@@ -354,8 +381,7 @@ def stmt_blind(s, loc):
                 order.append(n.arg)
             n.arg = 'v%d' % order.index(n.arg)
     try:
-        if isinstance(s, ast.Expr) and isinstance(s.value, ast.Tuple) and len(s.value.elts) == 2 and isinstance(s.value.elts[0], ast.Constant):
-            s.value.elts[1] = canon(s.value.elts[1])
+        s = canon(s)
     except Exception:
         pass
     return hashlib.sha1(ast.dump(s, annotate_fields=False, include_attributes=False).encode()).hexdigest()[:16], order
@@ -365,7 +391,7 @@ def vote_rename(fn, r, stats, key):
     """the function differs from its reference by more than a renaming: names that are new (not in the reference) are mapped onto
     reference names that disappeared, by agreement of the statements that are identical up to names. Any injective, capture-free
     renaming of local identifiers preserves behaviour, so the heuristic only decides WHICH renaming is applied, never its soundness."""
-    ref_names = set(n for o in r['names'] for n in o)
+    ref_names = set(n.split('\x01')[0] for o in r['names'] for n in o)
     loc = set(local_names(fn))
     all_ids = {n.id for n in ast.walk(fn) if isinstance(n, ast.Name)} | loc
     new = [n for n in loc if n not in ref_names]
@@ -408,6 +434,218 @@ def vote_rename(fn, r, stats, key):
         stats.append((key, 'renamed %s' % sorted(mapping.items())))
 
 
+def _as_ifexp(s, nxt):
+    """candidate conditional-expression spellings of `if c: T = A [else: T = B]` / `if c: return A [else:] return B`:
+    [(statement, consumed the following sibling?)] - both polarities (A if c else B, B if not c else A)."""
+    from .au import negate
+    if not isinstance(s, ast.If) or len(s.body) != 1:
+        return []
+    a = s.body[0]
+    used = False
+    if s.orelse:
+        if len(s.orelse) != 1:
+            return []
+        b = s.orelse[0]
+    elif isinstance(a, ast.Return) and nxt is not None and isinstance(nxt, ast.Return):
+        b, used = nxt, True
+    elif isinstance(a, ast.Assign) and len(a.targets) == 1 and isinstance(a.targets[0], ast.Name):
+        b = ast.copy_location(ast.Assign(targets=[a.targets[0]], value=ast.copy_location(ast.Name(id=a.targets[0].id, ctx=ast.Load()), a)), a)   # else: T = T
+    else:
+        return []
+    if isinstance(b, ast.If):          # elif chain -> nested conditional expression
+        c = _as_ifexp(b, None)
+        if not c:
+            return []
+        b = c[0][0]
+
+    def both(mk, va, vb):
+        pos = ast.copy_location(ast.IfExp(test=s.test, body=va, orelse=vb), s)
+        neg = ast.copy_location(ast.IfExp(test=ast.fix_missing_locations(ast.copy_location(negate(copy.deepcopy(s.test)), s.test)), body=vb, orelse=va), s)
+        return [(ast.copy_location(mk(pos), s), used), (ast.copy_location(mk(neg), s), used)]
+    if isinstance(a, ast.Return) and isinstance(b, ast.Return) and a.value is not None and b.value is not None:
+        return both(lambda v: ast.Return(value=v), a.value, b.value)
+    if isinstance(a, ast.Assign) and isinstance(b, ast.Assign) and len(a.targets) == 1 and len(b.targets) == 1 \
+            and isinstance(a.targets[0], ast.Name) and isinstance(b.targets[0], ast.Name) and a.targets[0].id == b.targets[0].id:
+        return both(lambda v: ast.Assign(targets=[a.targets[0]], value=v), a.value, b.value)
+    return []
+
+
+def reshape_conditionals(fn, r, stats, key):
+    """A conditional written as an expression (`T = A if c else B`, `return A if c else B`) and the same conditional written as statements
+    are the same program. Where the current spelling is not the one the reference has and the other spelling is, rewrite to the
+    reference's spelling (decided by name-blind statement digests), so that rules read the form they were written for."""
+    loc = set(local_names(fn))
+    have = {d for d, _ in r.get('stmts', [])}
+
+    def dig(s):
+        h = _header(s)
+        return stmt_blind(h, loc)[0] if h is not None else None
+    changed = [0]
+
+    def blk(stmts):
+        out = []
+        i = 0
+        while i < len(stmts):
+            s = stmts[i]
+            for f in ('body', 'orelse', 'finalbody'):
+                v = getattr(s, f, None)
+                if isinstance(v, list) and v and isinstance(v[0], ast.stmt) and not isinstance(s, (ast.FunctionDef, ast.AsyncFunctionDef, ast.ClassDef)):
+                    setattr(s, f, blk(v))
+            if isinstance(s, ast.Try):
+                for hd in s.handlers:
+                    hd.body = blk(hd.body)
+            if isinstance(s, ast.If) and dig(s) not in have:
+                hit = [(e, used) for e, used in _as_ifexp(s, stmts[i + 1] if i + 1 < len(stmts) else None) if dig(e) in have]
+                if hit:
+                    out.append(hit[0][0])
+                    changed[0] += 1
+                    i += 2 if hit[0][1] else 1
+                    continue
+            if isinstance(s, (ast.Assign, ast.Return)) and isinstance(s.value, ast.IfExp) and dig(s) not in have:
+                t = statement_form(s)
+                if t is not s and dig(t) in have:
+                    out.extend(flatten_block([t]))
+                    changed[0] += 1
+                    i += 1
+                    continue
+            out.append(s)
+            i += 1
+        return out
+    fn.body = blk(fn.body)
+    if changed[0] and stats is not None:
+        stats.append((key, 'conditional spelling x%d' % changed[0]))
+
+
+def _settle(fn, r, stats, key):
+    """is fn its reference up to a renaming of def-use webs? If so give every web its reference name."""
+    from . import webs
+    webs.split(fn, fn_scope_locals(fn))
+    h, order = blind(fn)
+    ok = (h == r['blind'])
+    if ok and order != r['names'] and [len(o) for o in order] == [len(o) for o in r['names']]:
+        mapping = {i: {a: b for a, b in zip(o, ro) if a != b} for i, (o, ro) in enumerate(zip(order, r['names']))}
+        mapping = {i: m for i, m in mapping.items() if m}
+        # two phases through temporary names so that swaps (a->b, b->a) are safe
+        rename_locals(fn, {i: {a: '\0' + b for a, b in m.items()} for i, m in mapping.items()})
+        rename_locals(fn, {i: {'\0' + b: b for b in m.values()} for i, m in mapping.items()})
+        if stats is not None:
+            stats.append((key, 'alpha %d' % sum(len(m) for m in mapping.values())))
+    webs.merge(fn)
+    return ok
+
+
+def inline_new_temps(fn, r, stats, key):
+    """A local name that the reference does not have, assigned once from a side-effect-free expression whose operands are not reassigned
+    afterwards, is a name for that expression: substitute it back (the inverse of "introduce explaining variable")."""
+    ref_names = set(n for o in r['names'] for n in o)
+    ref_names |= {n.split('\x01')[0] for n in ref_names}
+    own = fn_scope_locals(fn)
+    params = {a.arg for a in fn.args.posonlyargs + fn.args.args + fn.args.kwonlyargs} | {x.arg for x in (fn.args.vararg, fn.args.kwarg) if x}
+    cand = [n for n in own if n not in ref_names and n not in params]
+    if not cand:
+        return 0
+    done = 0
+    order = {}
+    for i, n in enumerate(_preorder(fn)):
+        order[id(n)] = i
+    for v in cand:
+        stores = [n for n in ast.walk(fn) if isinstance(n, ast.Name) and n.id == v and isinstance(n.ctx, (ast.Store, ast.Del))]
+        others = [n for n in ast.walk(fn) if (isinstance(n, ast.arg) and n.arg == v) or (isinstance(n, ast.ExceptHandler) and n.name == v)]
+        if len(stores) != 1 or others:
+            continue
+        found = _find_assign(fn, stores[0])
+        if found is None:
+            continue
+        block, idx, st = found
+        if not _pure(st.value) or isinstance(st.value, (ast.ListComp, ast.SetComp, ast.DictComp, ast.GeneratorExp)) and False:
+            continue
+        pos = order[id(st)]
+        loads = [n for n in ast.walk(fn) if isinstance(n, ast.Name) and n.id == v and isinstance(n.ctx, ast.Load)]
+        if not loads or any(order[id(n)] < pos for n in loads):
+            continue
+        # every use must be dominated by the definition: inside the statements that follow it in its own block
+        later = set()
+        for s2 in block[idx + 1:]:
+            later |= {id(n) for n in ast.walk(s2)}
+        if any(id(n) not in later for n in loads):
+            continue
+        # operands must keep their value between the definition and the uses
+        operands = _names_read(st.value)
+        last = max(order[id(n)] for n in loads)
+        bad = False
+        loop_anc = _enclosing_loops(fn, st)
+        for n in ast.walk(fn):
+            if isinstance(n, ast.Name) and n.id in operands and isinstance(n.ctx, (ast.Store, ast.Del)):
+                if pos < order[id(n)] <= last or any(lp in _enclosing_loops(fn, n) for lp in _loops_between(fn, st, loads)):
+                    bad = True
+            if isinstance(n, ast.Call) and isinstance(n.func, ast.Attribute) and n.func.attr in MUTATORS and pos < order[id(n)] <= last:
+                root = n.func.value
+                while isinstance(root, (ast.Attribute, ast.Subscript)):
+                    root = root.value
+                if isinstance(root, ast.Name) and root.id in operands:
+                    bad = True
+            if isinstance(n, (ast.Subscript, ast.Attribute)) and isinstance(n.ctx, (ast.Store, ast.Del)) and pos < order[id(n)] <= last:
+                root = n.value
+                while isinstance(root, (ast.Attribute, ast.Subscript)):
+                    root = root.value
+                if isinstance(root, ast.Name) and root.id in operands:
+                    bad = True
+        if bad:
+            continue
+        sub = _Subst({v: st.value})
+        for s2 in block[idx + 1:]:
+            sub.visit(s2)
+        del block[idx]
+        done += 1
+    if done and stats is not None:
+        stats.append((key, 'inlined %d new temporaries' % done))
+    return done
+
+
+MUTATORS = {'append', 'extend', 'insert', 'pop', 'remove', 'clear', 'update', 'setdefault', 'sort', 'reverse', 'add', 'discard', 'popitem'}
+
+
+def _preorder(node):
+    yield node
+    for c in ast.iter_child_nodes(node):
+        yield from _preorder(c)
+
+
+def _find_assign(fn, store):
+    for n in ast.walk(fn):
+        for f in ('body', 'orelse', 'finalbody'):
+            v = getattr(n, f, None)
+            if isinstance(v, list):
+                for i, s in enumerate(v):
+                    if isinstance(s, ast.Assign) and len(s.targets) == 1 and s.targets[0] is store:
+                        return v, i, s
+    return None
+
+
+def _enclosing_loops(fn, node):
+    out = []
+
+    def rec(n, stack):
+        if n is node:
+            out.extend(stack)
+            return True
+        st2 = stack + [n] if isinstance(n, (ast.For, ast.While, ast.AsyncFor)) else stack
+        return any(rec(c, st2) for c in ast.iter_child_nodes(n))
+    rec(fn, [])
+    return out
+
+
+def _loops_between(fn, st, loads):
+    """loops that contain a use but not the definition: an operand reassigned anywhere inside such a loop changes between iterations"""
+    d = set(map(id, _enclosing_loops(fn, st)))
+    out = []
+    for n in loads:
+        for lp in _enclosing_loops(fn, n):
+            if id(lp) not in d and lp not in out:
+                out.append(lp)
+    return out
+
+
 def normalise_repo(trees, use_reference=True, stats=None):
     for tree in trees.values():
         for n in ast.walk(tree):
@@ -426,24 +664,13 @@ def normalise_repo(trees, use_reference=True, stats=None):
                     r = ref[c[0]] if len(c) == 1 else None
                 if r is None:
                     continue
-                from . import webs
-                nsplit = webs.split(fn, fn_scope_locals(fn))
-                h, order = blind(fn)
-                fn._drift = (h != r['blind'])
-                if h != r['blind'] and nsplit:
-                    webs.merge(fn)
-                if h == r['blind']:
-                    if order != r['names'] and [len(o) for o in order] == [len(o) for o in r['names']]:
-                        mapping = {i: {a: b for a, b in zip(o, ro) if a != b} for i, (o, ro) in enumerate(zip(order, r['names']))}
-                        mapping = {i: m for i, m in mapping.items() if m}
-                        # two phases through temporary names so that swaps (a->b, b->a) are safe
-                        rename_locals(fn, {i: {a: '\0' + b for a, b in m.items()} for i, m in mapping.items()})
-                        rename_locals(fn, {i: {'\0' + b: b for b in m.values()} for i, m in mapping.items()})
-                        if stats is not None:
-                            stats.append((key, 'alpha %d' % sum(len(m) for m in mapping.values())))
-                    webs.merge(fn)
-                else:
+                if not _settle(fn, r, stats, key):
+                    reshape_conditionals(fn, r, stats, key)
                     vote_rename(fn, r, stats, key)
+                    if inline_new_temps(fn, r, stats, key):
+                        reshape_conditionals(fn, r, stats, key)
+                    fn.body = flatten_block(fn.body)
+                    fn._drift = not _settle(fn, r, stats, key)
     for tree in trees.values():
         link_siblings(tree)
 
@@ -458,7 +685,7 @@ def make_reference(trees):
             f2 = copy.deepcopy(fn)
             webs.split(f2, fn_scope_locals(f2))
             h, order = blind(f2)
-            out[key] = dict(blind=h, names=order, stmts=stm)
+            out[key] = dict(blind=h, names=order, stmts=stm, plain=blind(fn)[0])
     return dict(functions=out)
 
 
@@ -599,7 +826,7 @@ def _stamp(nodes, at, src):
                 n.end_col_offset = n.col_offset
 
 
-def _expand(h, call, caller_locals, is_method, self_expr=None):
+def _expand(h, call, caller_locals, is_method, self_expr=None, allow=()):
     """(binding statements, body statements) of helper h specialised to this call, or None"""
     env = _bind(h, call, is_method)
     if env is None:
@@ -633,7 +860,8 @@ def _expand(h, call, caller_locals, is_method, self_expr=None):
     free -= assigned | set(env)
     if free & caller_locals:
         return None
-    ren = {n: n + '_' for n in hl & caller_locals if n not in env}
+    allow = set(allow) - _names_read(call)      # the call's own target may be clobbered: it is (re)assigned by this very statement
+    ren = {n: n + '_' for n in hl & caller_locals if n not in env and n not in allow}
     if ren:
         for s in body:
             for n in ast.walk(s):
@@ -641,6 +869,58 @@ def _expand(h, call, caller_locals, is_method, self_expr=None):
                     n.id = ren[n.id]
     body = [_Subst(sub).visit(s) for s in body]
     return binds, body
+
+
+def _assignify(body, make):
+    """the helper body with every `return e` turned into make(e) (an assignment to the call's target): possible when every return is in
+    tail position of the if/else structure (after else-elimination: `if c: ...return` followed by the rest = if/else). None otherwise."""
+    if not body:
+        return [make(ast.Constant(value=None))]
+    out = []
+    for i, s in enumerate(body):
+        last = i == len(body) - 1
+        if isinstance(s, ast.Return):
+            if not last:
+                return None
+            out.append(make(s.value if s.value is not None else ast.Constant(value=None)))
+            return out
+        if isinstance(s, ast.If) and _returns([s]):
+            if terminates(s.body) and not s.orelse:
+                a = _assignify(s.body, make)
+                b = _assignify(body[i + 1:], make)
+                if a is None or b is None:
+                    return None
+                out.append(ast.copy_location(ast.If(test=s.test, body=a, orelse=b), s))
+                return out
+            if last:
+                a = _assignify(s.body, make)
+                b = _assignify(s.orelse, make) if s.orelse else [make(ast.Constant(value=None))]
+                if a is None or b is None:
+                    return None
+                out.append(ast.copy_location(ast.If(test=s.test, body=a, orelse=b), s))
+                return out
+            return None
+        if _returns([s]):
+            return None          # a return inside a loop / try / with: not expressible as an assignment
+        out.append(s)
+    out.append(make(ast.Constant(value=None)))
+    return out
+
+
+def _exprify(body):
+    """the value of a helper whose body is only an if/return structure, as one (conditional) expression; None otherwise"""
+    if not body:
+        return None
+    s = body[0]
+    if isinstance(s, ast.Return) and s.value is not None:
+        return s.value
+    if isinstance(s, ast.If):
+        a = _exprify(s.body)
+        b = _exprify(s.orelse) if s.orelse else (_exprify(body[1:]) if terminates(s.body) else None)
+        if a is None or b is None:
+            return None
+        return ast.copy_location(ast.IfExp(test=s.test, body=a, orelse=b), s)
+    return None
 
 
 def _returns(body):
@@ -723,8 +1003,24 @@ def _inline_in(fn, lookup, key, stats):
                 body0 = _body_of(h)
                 rets = _returns(body0)
                 single_tail = len(rets) == 1 and body0 and body0[-1] is rets[0]
+                allow = [t.id for t in s.targets if isinstance(t, ast.Name)] if isinstance(s, ast.Assign) else []
+                if not (isinstance(s, ast.Return) or single_tail or not rets) and isinstance(s, (ast.Assign, ast.Expr)):
+                    ex = _expand(h, call, caller_locals, is_method, self_expr, allow)
+                    if ex is not None:
+                        binds, body = ex
+                        if isinstance(s, ast.Assign):
+                            mk = lambda v: ast.Assign(targets=copy.deepcopy(s.targets), value=v)
+                        else:
+                            mk = lambda v: ast.Expr(value=v)
+                        new = _assignify(body, mk)
+                        if new is not None:
+                            new = binds + new
+                            _stamp(new, s, (h.name,))
+                            ast.fix_missing_locations(ast.Module(body=new, type_ignores=[]))
+                            note(h)
+                            return new
                 if isinstance(s, ast.Return) or single_tail or not rets:
-                    ex = _expand(h, call, caller_locals, is_method, self_expr)
+                    ex = _expand(h, call, caller_locals, is_method, self_expr, allow)
                     if ex is not None:
                         binds, body = ex
                         if isinstance(s, ast.Return):
@@ -737,6 +1033,8 @@ def _inline_in(fn, lookup, key, stats):
                             val = last.value if last is not None and last.value is not None else ast.Constant(value=None)
                             if isinstance(s, ast.Assign):
                                 tail = [ast.Assign(targets=s.targets, value=val)]
+                                if len(s.targets) == 1 and isinstance(s.targets[0], ast.Name) and isinstance(val, ast.Name) and val.id == s.targets[0].id:
+                                    tail = []
                             else:
                                 tail = [] if _simple(val) else [ast.Expr(value=val)]
                             new = binds + core_ + tail
@@ -748,17 +1046,28 @@ def _inline_in(fn, lookup, key, stats):
         class E(ast.NodeTransformer):
             def visit_Call(self, c):
                 self.generic_visit(c)
+                if any(isinstance(a, ast.Starred) and isinstance(a.value, ast.Tuple) and getattr(a.value, '_src', None) for a in c.args):
+                    args = []
+                    for a in c.args:        # f(*helper(..)) with helper(..) inlined to a tuple display: f(e1, e2)
+                        if isinstance(a, ast.Starred) and isinstance(a.value, ast.Tuple) and getattr(a.value, '_src', None):
+                            args.extend(a.value.elts)
+                        else:
+                            args.append(a)
+                    c.args = args
                 hit = lookup(c)
                 if not hit:
                     return c
                 h, is_method, self_expr = hit
                 b = _body_of(h)
-                if len(b) != 1 or not isinstance(b[0], ast.Return) or b[0].value is None:
+                if _exprify(b) is None:
                     return c
                 ex = _expand(h, c, caller_locals, is_method, self_expr)
                 if ex is None or ex[0]:
                     return c
-                e = ex[1][0].value
+                e = _exprify(ex[1])
+                if e is None:
+                    return c
+                e = copy.deepcopy(e)
                 _stamp([e], c, (h.name,))
                 note(h)
                 return e
